@@ -97,6 +97,7 @@ def api(call, fn, *a, **kw):
 #          then re-configured to the configuration of the scenario (the 'prior' mechanism of build(), for every check)
 #   late_config: True -> objects with a configuration (default unit, sampling period) are configured AFTER parse() instead of before
 #   const_bounds: seed -> the numeric interval bounds of every specification text become named constants (API or in-text)
+#   empty_poll: seed -> before one drawn dense-time update() (not the first) an update() with an empty batch for every variable
 #   surplus_named: seed -> the data set of a discrete-time offline evaluation carries further columns that have the names of
 #          the assertions / sub-specifications (a table the results were written back to, a CSV with output columns)
 
@@ -756,6 +757,18 @@ def ct_update(spec, batches, order=None):
     if not getattr(spec, '_verif_structs', None):
         _twin(spec, lambda tw: api('update', tw.update, *[[a[0], [[q[0], _other(q[1])] for q in a[1]]] for a in args]))
     _idem_config(spec)
+    polled = []
+    if ENV.get('empty_poll') is not None and not getattr(spec, '_verif_structs', None):
+        # run environment 'empty_poll': a polling loop that once finds nothing new - before one drawn update() (not the first) the
+        # application calls update() with an empty batch for every variable; what that call returns is part of the output stream
+        npoll = getattr(spec, '_verif_npoll', 0)
+        spec._verif_npoll = npoll + 1
+        if npoll == 1 + ENV['empty_poll'] % 3:
+            polled = api('update', spec.update, *[[a[0], []] for a in args])
+            if not isinstance(polled, list):
+                raise ApiCrash('update', TypeError('update returned %r' % (polled,)))
+            polled = copy.deepcopy(polled)
+            ENV_FIRED['empty_poll'] = 1
     if ENV.get('reuse_buffers'):
         bufs = getattr(spec, '_verif_bufs', None)
         if bufs is None:
@@ -773,6 +786,8 @@ def ct_update(spec, batches, order=None):
         out = copy.deepcopy(out)     # what was returned is observed NOW: `out = a` hands the caller's own buffer back
     if ENV.get('omit_idle'):
         seen.update(a[0] for a in args)       # (only an update the monitor accepted counts as "supplied before")
+    if polled and isinstance(out, list):
+        out = polled + out
     return out
 
 
